@@ -72,7 +72,7 @@ class CachingLoaderMixin(ABC, _CachingLoaderProtocol):
 
     def _check_cache(
         self,
-        env: Environment,  # noqa: ARG002
+        env: Environment,
         cache_key: str,
         globals: Mapping[str, object] | None,  # noqa: A002
         load_func: Callable[[], Template],
@@ -80,6 +80,13 @@ class CachingLoaderMixin(ABC, _CachingLoaderProtocol):
         try:
             cached_template = self.cache[cache_key]
         except KeyError:
+            template = load_func()
+            self.cache[cache_key] = template
+            return template
+
+        if cached_template.env is not env:
+            # The loader is shared with another environment. A template is parsed
+            # and rendered with the tags, filters and options of its environment.
             template = load_func()
             self.cache[cache_key] = template
             return template
@@ -93,7 +100,7 @@ class CachingLoaderMixin(ABC, _CachingLoaderProtocol):
 
     async def _check_cache_async(
         self,
-        env: Environment,  # noqa: ARG002
+        env: Environment,
         cache_key: str,
         globals: Mapping[str, object] | None,  # noqa: A002
         load_func: Callable[[], Awaitable[Template]],
@@ -101,6 +108,11 @@ class CachingLoaderMixin(ABC, _CachingLoaderProtocol):
         try:
             cached_template = self.cache[cache_key]
         except KeyError:
+            template = await load_func()
+            self.cache[cache_key] = template
+            return template
+
+        if cached_template.env is not env:
             template = await load_func()
             self.cache[cache_key] = template
             return template
